@@ -9,6 +9,7 @@ from ..absint import Evaluator, Opaque, Unknown, EvalRaise
 from ..cfg import CFG, Node, describe_path, no_exc
 from ..effects import CONST, FRESH, SELF, Eff, Registration, bind_args
 from ..program import FuncInfo, ancestors, enclosing_stmt, norm, parent, walk_local
+from .common import same_key_rebuild
 
 EXPLANATION = (
     "Decided for all paths of every context-aware operation (functions that consult get_context, resettable "
@@ -52,7 +53,7 @@ INVERSE_EXCEPTIONS = {
         "the popped key is a foreign copy of a model metabolite held by the incoming reaction: not model state",
     ("core.model.Model.add_reactions", "reaction._metabolites[model_metabolite] = stoichiometry", "Reaction._metabolites", "*"):
         "forward reference of the incoming reaction; the reaction leaves the model again on undo",
-    ("core.reaction.Reaction.__imul__", "self._metabolites = {met: value * coefficient for met, value in self._metabolites.items()}", "Reaction._metabolites", "raise"):
+    ("core.reaction.Reaction.__imul__", "<same-key rebuild>", "Reaction._metabolites", "raise"):
         "the only raising step before the registration is the bounds setter with (-ub, -lb), which preserves lb <= ub and therefore cannot fail its check",
     ("core.reaction.Reaction.update_genes_from_gpr", "self._genes = set()", "Reaction._genes", "raise"):
         "the only raising step before the registrations is model_genes.get_by_id(g_id), which follows `if not has_id(g_id): append(Gene(g_id))`: the id is present",
@@ -63,9 +64,9 @@ INVERSE_EXCEPTIONS = {
 }
 
 
-def _excepted(key_fn: str, construct: str, cell: str, kind: str) -> Optional[str]:
+def _excepted(key_fn: str, construct: str, cell: str, kind: str, samekeys: bool = False) -> Optional[str]:
     for (f, c, ce, k), reason in INVERSE_EXCEPTIONS.items():
-        if f == key_fn and c == construct and ce in ("*", cell) and k in ("*", kind):
+        if f == key_fn and (c == construct or (c == "<same-key rebuild>" and samekeys)) and ce in ("*", cell) and k in ("*", kind):
             return reason
     return None
 
@@ -112,14 +113,16 @@ def check_exact(ctx, regs: List[Registration]) -> None:
     own undo, the entry acts on an object that is no longer installed."""
     for r in regs:
         # ---- closures defined in a loop bind the loop's variables late
-        if r.closure is not None or isinstance(r.callable_expr, ast.Lambda):
-            body = r.closure.node if r.closure is not None else r.callable_expr
+        if r.closure is not None or isinstance(r.callable_expr, ast.Lambda) or r.closure_node is not None:
+            body = r.closure_node if r.closure_node is not None else (r.closure.node if r.closure is not None else r.callable_expr)
             loop = _enclosing_for(body, r.fn)
             if loop is not None:
                 assigned = {n.id for n in ast.walk(loop) if isinstance(n, ast.Name) and isinstance(n.ctx, ast.Store) and not any(a is body for a in ancestors(n))}
-                params = {a.arg for a in body.args.args + body.args.kwonlyargs} if hasattr(body, "args") else set()
+                params = {a.arg for a in body.args.posonlyargs + body.args.args + body.args.kwonlyargs} if hasattr(body, "args") else set()
                 own = {n.id for n in ast.walk(body) if isinstance(n, ast.Name) and isinstance(n.ctx, ast.Store)}
-                free = {n.id for n in ast.walk(body) if isinstance(n, ast.Name) and isinstance(n.ctx, ast.Load)} - params - own
+                # the body only: default expressions are evaluated when the function is defined (early binding)
+                inner = body.body if isinstance(body.body, list) else [body.body]
+                free = {n.id for st in inner for n in ast.walk(st) if isinstance(n, ast.Name) and isinstance(n.ctx, ast.Load)} - params - own
                 late = sorted(free & assigned)
                 if late:
                     ctx.bad("C03.exact", r.fn, enclosing_stmt(r.node), f"the undo entry is a closure defined inside a loop and reads the loop's variables {late} when it runs: every entry then sees the values of the last iteration, so only the last object is restored (bind them with functools.partial or default arguments)")
@@ -411,6 +414,91 @@ def c13_is_model_cell(cell: str) -> bool:
 
 
 # ----------------------------------------------------------------------------------------- stack
+def _check_history_semantics(ctx) -> None:
+    """HistoryManager.__call__/reset and get_context evaluated by the analyser's interpreter over stand-ins: entries
+    are replayed last-in-first-out, each removed from the history before it runs, entries recorded during the replay
+    are replayed as well, the history ends empty; get_context hands out the innermost context of a model, of the model
+    of an attached object, and None otherwise."""
+    from ..interp import Interp
+    from ..absint import Unknown as _U, EvalRaise as _ER
+
+    prog = ctx.prog
+    rs = prog.func("cobra.util.context", "HistoryManager.reset")
+    cl = prog.func("cobra.util.context", "HistoryManager.__call__")
+    gc = prog.func("cobra.util.context", "get_context")
+
+    class _H:
+        def __init__(self):
+            self._history = []
+
+    class _Entry:
+        def __init__(self, name, log, hist, also=None):
+            self.name, self.log, self.hist, self.also = name, log, hist, also
+
+        def __call__(self):
+            self.log.append((self.name, [e.name for e in self.hist._history]))
+            if self.also is not None:
+                self.hist._history.append(self.also)
+
+    class _Obj:
+        pass
+
+    def run(fn, args, selfobj=None):
+        it = Interp(prog, (_H, _Entry, _Obj), [], {})
+        it.missing_attr_raises = True
+        try:
+            return it.call(fn, args, {}, selfobj=selfobj)
+        except _U as exc:
+            raise AnalysisError(f"C03.stack: {fn.short} cannot be evaluated: {exc}")
+
+    h = _H()
+    log: List = []
+    e4 = _Entry("late", log, h)
+    entries = [_Entry("first", log, h), _Entry("second", log, h, also=e4), _Entry("third", log, h)]
+    try:
+        for e in entries:
+            run(cl, [e], selfobj=h)
+        recorded = [e.name for e in h._history]
+        run(rs, [], selfobj=h)
+    except _ER as exc:
+        ctx.bad("C03.stack", rs, rs.node, f"recording / replaying three entries raises {exc.exc_type}")
+        return
+    if recorded == ["first", "second", "third"]:
+        ctx.ok("C03.stack", cl, cl.node, "the operation is appended at the end (evaluated)")
+    else:
+        ctx.bad("C03.stack", cl, cl.node, f"__call__ does not append the given operation to the end of the history (recorded order {recorded})")
+    order = [n for n, _ in log]
+    still_listed = [n for n, rest in log if n in rest]
+    if order == ["third", "second", "late", "first"] and not h._history and not still_listed:
+        ctx.ok("C03.stack", rs, rs.node, "entries are replayed last-in-first-out, each removed before it runs, entries recorded meanwhile included, until the history is empty (evaluated)")
+    else:
+        ctx.bad("C03.stack", rs, rs.node, f"reset() replays {order} for entries recorded as first, second (records `late` when it runs), third and leaves {[e.name for e in h._history]}: the history must be replayed last-in-first-out until it is empty, each entry removed before it runs")
+    # get_context
+    h1, h2 = _H(), _H()
+    model = _Obj()
+    model._contexts = [h1, h2]
+    part = _Obj()
+    part._model = model
+    empty = _Obj()
+    empty._contexts = []
+    orphan = _Obj()
+    orphan._model = None
+    cases = (("a model inside two nested contexts", model, h2), ("an object of that model", part, h2), ("a model outside any context", empty, None), ("an object without model", orphan, None))
+    bad = []
+    for label, obj, want in cases:
+        try:
+            got = run(gc, [obj])
+        except _ER as exc:
+            bad.append(f"{label}: raises {exc.exc_type}")
+            continue
+        if got is not want:
+            bad.append(f"{label}: {'the outer context' if got is h1 else 'None' if got is None else 'something else'} is handed out")
+    if bad:
+        ctx.bad("C03.stack", gc, gc.node, "get_context does not return the innermost (last) context: " + "; ".join(bad[:2]))
+    else:
+        ctx.ok("C03.stack", gc, gc.node, "innermost context of a model / of an attached object's model; None otherwise (evaluated)")
+
+
 def check_stack(ctx) -> None:
     prog, eff = ctx.prog, ctx.eff
     allowed = {
@@ -472,40 +560,7 @@ def check_stack(ctx) -> None:
         if rets:
             ctx.bad("C03.stack", ex, rets[0], "__exit__ may return a truthy value and swallow the exception that ended the block")
     ctx.isolated = check_isolation(ctx, ex, g, resets)
-    # reset(): while history: entry = history.pop(); entry()
-    rs = prog.func("cobra.util.context", "HistoryManager.reset")
-    loops = [n for n in walk_local(rs.node) if isinstance(n, ast.While)]
-    good = False
-    for lp in loops:
-        if "_history" not in norm(lp.test):
-            continue
-        pops = [n for n in ast.walk(lp) if isinstance(n, ast.Call) and isinstance(n.func, ast.Attribute) and n.func.attr == "pop" and "_history" in norm(n.func.value)]
-        calls = [n for n in ast.walk(lp) if isinstance(n, ast.Call) and isinstance(n.func, ast.Name)]
-        if pops and all((not p.args) or norm(p.args[0]) == "-1" for p in pops) and calls:
-            # the popped entry is the one called
-            tgt = None
-            for st in lp.body:
-                if isinstance(st, ast.Assign) and st.value in pops and isinstance(st.targets[0], ast.Name):
-                    tgt = st.targets[0].id
-            if tgt and any(c.func.id == tgt for c in calls):
-                good = True
-    if good:
-        ctx.ok("C03.stack", rs, loops[0], "entries are popped from the end and run until the history is empty")
-    else:
-        ctx.bad("C03.stack", rs, rs.node, "reset() no longer replays the history last-in-first-out until it is empty")
-    cl = prog.func("cobra.util.context", "HistoryManager.__call__")
-    apps = [n for n in walk_local(cl.node) if isinstance(n, ast.Call) and isinstance(n.func, ast.Attribute) and n.func.attr == "append" and "_history" in norm(n.func.value)]
-    if apps and all(len(a.args) == 1 and isinstance(a.args[0], ast.Name) and a.args[0].id in cl.params for a in apps):
-        ctx.ok("C03.stack", cl, enclosing_stmt(apps[0]), "the operation is appended at the end")
-    else:
-        ctx.bad("C03.stack", cl, cl.node, "__call__ does not append the given operation to the end of the history")
-    # get_context returns the innermost context
-    gc = prog.func("cobra.util.context", "get_context")
-    rets = [n for n in walk_local(gc.node) if isinstance(n, ast.Return) and n.value is not None]
-    if rets and all(isinstance(r.value, ast.Subscript) and norm(r.value.slice) == "-1" and norm(r.value.value).endswith("_contexts") for r in rets):
-        ctx.ok("C03.stack", gc, rets[0], "innermost context is handed out")
-    else:
-        ctx.bad("C03.stack", gc, gc.node, "get_context does not return the innermost (last) context")
+    _check_history_semantics(ctx)
     # resettable: registers the raw function with the OLD value, before calling the setter
     rt = prog.func("cobra.util.context", "resettable.wrapper")
     regs = [n for n in walk_local(rt.node) if isinstance(n, ast.Call) and ctx.eff.is_registration(rt, n)]
@@ -1000,8 +1055,10 @@ def check_inverse(ctx, regs: List[Registration]) -> None:
                 if g.rexit in seen:
                     w2 = g.path_to(seen, g.rexit)
                     break
-            if w2 is not None and _excepted(kfn, kcon, m.cell, "raise"):
-                ctx.ok("C03.inverse", fn, enclosing_stmt(m.node), f"frozen exception: {_excepted(kfn, kcon, m.cell, 'raise')}")
+            _st = enclosing_stmt(m.node)
+            _sk = isinstance(_st, ast.Assign) and len(_st.targets) == 1 and same_key_rebuild(fn, _st.targets[0], _st.value)
+            if w2 is not None and _excepted(kfn, kcon, m.cell, "raise", _sk):
+                ctx.ok("C03.inverse", fn, enclosing_stmt(m.node), f"frozen exception: {_excepted(kfn, kcon, m.cell, 'raise', _sk)}")
                 continue
             if w2 is not None:
                 ctx.bad(
